@@ -169,7 +169,7 @@ func tripRace(prop string, nreq, bound int) *sched.Scenario {
 				for i := firstTripped + 1; i < w.n; i++ {
 					e := w.evs[i]
 					if e.kind == 0 && w.arrSeq[e.thread] > firstTripped {
-						f = append(f, vrt.Failure{Key: "C05:request-passed-during-fallback:concurrent",
+						f = append(f, vrt.Failure{Key: prop + ":request-passed-during-fallback:concurrent",
 							Detail: fmt.Sprintf("request %d arrived after a completion had observed the breaker tripped (%v after start, fallback %v) and still reached the handler", e.thread, w.arrClock[e.thread].Sub(base), cFallback)})
 					}
 				}
@@ -206,7 +206,26 @@ func (w *cworld) requestAs(t int) { w.request(t) }
 // completing request resumed from its in-flight yield, so the request under scrutiny must
 // have been refused if it arrived less than the fallback duration after that instant.
 func (w *cworld) shielded(fallback time.Duration) []vrt.Failure {
+	return w.shieldedFor("C05", fallback)
+}
+
+func (w *cworld) shieldedFor(prop string, fallback time.Duration) []vrt.Failure {
 	var f []vrt.Failure
+	// the breaker may not be observed OUT of the tripped state earlier than a fallback duration after a
+	// completion observed it tripped (the trip happened no earlier than that request's handler resumed)
+	for j := 0; j < w.n; j++ {
+		if w.evs[j].kind != 2 || w.evs[j].state != "tripped" || w.resume[w.evs[j].thread].IsZero() {
+			continue
+		}
+		notBefore := w.resume[w.evs[j].thread]
+		for i := j + 1; i < w.n; i++ {
+			if w.evs[i].kind == 2 && w.evs[i].state != "tripped" && w.evs[i].clock.Before(notBefore.Add(fallback)) {
+				f = append(f, vrt.Failure{Key: prop + ":left-tripped-state-before-fallback-elapsed:concurrent",
+					Detail: fmt.Sprintf("a completion observed the breaker tripped (trip no earlier than +%v); at +%v, less than the fallback duration %v later, request %d observed it %s", notBefore.Sub(base), w.evs[i].clock.Sub(base), fallback, w.evs[i].thread, w.evs[i].state)})
+				return f
+			}
+		}
+	}
 	for i := 0; i < w.n; i++ {
 		e := w.evs[i]
 		if e.kind != 0 {
@@ -242,7 +261,10 @@ func (w *cworld) shielded(fallback time.Duration) []vrt.Failure {
 // fallback period passes; A' starts recovery (guided preparation). Then B completes with a
 // failure and re-trips the breaker while A is arriving, the clock moves on by less than the
 // fallback duration, and D arrives: D must be refused.
-func retripRace(bound int) *sched.Scenario {
+func retripRace(bound int) *sched.Scenario { return retripRaceFor("C05", bound) }
+
+// (for C12 the same scenario checks the clause "if the condition matches again the breaker trips again and shields the backend anew")
+func retripRaceFor(prop string, bound int) *sched.Scenario {
 	sc := &sched.Scenario{Name: fmt.Sprintf("breaker-retrip-race/bound=%d", bound), Bound: bound}
 	const fb, rc = 10 * time.Second, time.Second
 	sc.Guide = []vrt.GuideStep{{T: 0, Until: "yield"}, {T: 1, Until: "yield"}, {T: 1, Until: "done"}, {T: 2, Until: "yield"}, {T: 3, Until: "done"}}
@@ -277,7 +299,7 @@ func retripRace(bound int) *sched.Scenario {
 			func() { w.request(4) },
 			func() { w.request(5); w.request(6) },
 		}
-		inst.Check = func(x *vrt.Exec) []vrt.Failure { return w.shielded(fb) }
+		inst.Check = func(x *vrt.Exec) []vrt.Failure { return w.shieldedFor(prop, fb) }
 		inst.Outcome = func() string {
 			var sb strings.Builder
 			for i := 0; i < w.n; i++ {
@@ -473,6 +495,53 @@ func mixedRace(bound int) *sched.Scenario {
 	return sc
 }
 
+// standbyRace (C18): the breaker has tripped, the fallback period is over, recovery has begun and its period is
+// over as well (sequential preparation). Then several requests arrive at once while the clock keeps moving: the
+// breaker returns to standby ONCE - the on-standby side effect runs exactly once, the on-tripped one not at all.
+func standbyRace(prop string, nreq, bound int) *sched.Scenario {
+	sc := &sched.Scenario{Name: fmt.Sprintf("breaker-standby-race/requests=%d/bound=%d", nreq, bound), Bound: bound}
+	sc.New = func() *sched.Instance {
+		clock.VerifInstall(base, nil)
+		w := &cworld{}
+		code := 502
+		w.cb = newBreaker(w, &code)
+		w.request(0) // trips
+		clock.VerifAdvance(cFallback + time.Second)
+		code = 200
+		w.request(0) // recovery begins
+		clock.VerifAdvance(cRecovery + time.Second)
+		prepared := stateOf(w.cb) == "recovering" // (the side effects themselves run as threads of their own)
+		inst := &sched.Instance{}
+		for i := 0; i < nreq; i++ {
+			t := i + 1
+			inst.Names = append(inst.Names, fmt.Sprintf("r%d", t))
+			inst.Bodies = append(inst.Bodies, func() { w.request(t) })
+		}
+		inst.Names = append(inst.Names, "clock")
+		inst.Bodies = append(inst.Bodies, func() {
+			for k := 0; k < 2; k++ {
+				vrt.Yield()
+				clock.VerifAdvance(time.Millisecond)
+			}
+		})
+		inst.Check = func(x *vrt.Exec) []vrt.Failure {
+			if !prepared {
+				return []vrt.Failure{{Key: prop + ":harness:breaker-not-at-the-end-of-recovery", Detail: w.cb.String()}}
+			}
+			if w.standby != 1 || w.tripped != 1 {
+				return []vrt.Failure{{Key: prop + ":side-effect-count:return-to-standby", Detail: fmt.Sprintf("%d healthy requests overlapped the end of the recovery period: OnStandby ran %d times (want 1), OnTripped %d times in total (want 1, from the initial trip); final %s", nreq, w.standby, w.tripped, w.cb.String())}}
+			}
+			if st := stateOf(w.cb); st != "standby" {
+				return []vrt.Failure{{Key: prop + ":not-standby-after-recovery:concurrent", Detail: "final " + w.cb.String()}}
+			}
+			return nil
+		}
+		inst.Outcome = func() string { return fmt.Sprint(w.standby, w.tripped) }
+		return inst
+	}
+	return sc
+}
+
 func keys(m map[int]bool) []int {
 	var out []int
 	for k := range m {
@@ -488,11 +557,11 @@ func Scenarios(prop, tier string) []*sched.Scenario {
 	}
 	switch prop {
 	case "C12":
-		return []*sched.Scenario{recoveryRace(3, b, 200), recoveryRace(2, b+1, 200), recoveryRace(3, b, 502)}
+		return []*sched.Scenario{recoveryRace(3, b, 200), recoveryRace(2, b+1, 200), recoveryRace(3, b, 502), retripRaceFor("C12", b)}
 	case "C05":
 		return []*sched.Scenario{tripRace(prop, 3, b), tripRace(prop, 2, b+1), retripRace(b)}
 	case "C18":
-		return []*sched.Scenario{tripRace(prop, 3, b), tripRace(prop, 2, b+1), mixedRace(b + 1)}
+		return []*sched.Scenario{tripRace(prop, 3, b), tripRace(prop, 2, b+1), mixedRace(b + 1), standbyRace(prop, 2, b+1), standbyRace(prop, 3, b)}
 	default:
 		return []*sched.Scenario{tripRace(prop, 3, b), tripRace(prop, 2, b+1)}
 	}
